@@ -78,6 +78,8 @@ func c06Patches() []c06Patch {
 		// a name that one change declares as a metavariable is an ordinary identifier in the other change
 		one("metavar-name-is-literal-later", "@@\nvar other expression\n@@\n-nomatch(other)\n+mark(other)\n\n@@\n@@\n-other.Lock()\n+other.mark()\n"),
 		one("metavar-name-is-literal-earlier", "@@\n@@\n-other.Lock()\n+other.mark()\n\n@@\nvar other identifier\n@@\n-nomatch(other)\n+mark(other)\n"),
+		one("nearmiss-for-header-post", "@@\nvar x identifier\n@@\n for ; ...; i++ {\n-  _ = x\n+  mark(x)\n }\n"),
+		one("nearmiss-for-header-post-break", "@@\n@@\n for ; ...; i++ {\n-  break\n+  mark()\n }\n"),
 		one("two-changes", "@@\n@@\n-nomatch1()\n+mark()\n\n# second\n@ second @\nvar x expression\n@@\n-nomatch2(x)\n+mark(x)\n"),
 		{id: "two-patch-files", files: []string{"@@\n@@\n-nomatch1()\n+mark()\n", "@@\nvar n identifier\n@@\n import n \"fmt\"\n-n.Nomatch(1)\n+n.mark(1)\n"}, guard: true},
 	}
